@@ -11,7 +11,7 @@ from sim.observe import layout_signature, observe
 
 ID = "C18"
 LEVEL = "exploration"
-TIERS = {"quick": {"runs": 8000, "budget_s": 70, "chunk": 50, "min_runs": 300},
+TIERS = {"quick": {"runs": 20000, "budget_s": 75, "chunk": 50, "min_runs": 300},
          "thorough": {"runs": 1200000, "budget_s": 1200, "chunk": 200, "min_runs": 5000}}
 RULE = ("case = seeded (field sequence from the full generator incl. bit-field runs, dynamic fields, nested/anonymous types, unions, "
         "pointers, optionally a pointer to the structure itself; align; compiled requested or not; a split of the fields into "
